@@ -1,0 +1,39 @@
+//go:build verif
+
+package engine
+
+import (
+	"github.com/wundergraph/graphql-go-tools/v2/pkg/engine/plan"
+	"github.com/wundergraph/graphql-go-tools/v2/pkg/engine/postprocess"
+	"github.com/wundergraph/graphql-go-tools/v2/pkg/engine/resolve"
+)
+
+// The engine's ExecutionOptions take an unexported context type, so an external module cannot hand
+// a response cache, loader hooks or de-duplication switches to a request the way an integrating
+// router does. These accessors exist only under the verif build tag, for the verification harness.
+
+// VerifWithResolveContext gives the harness access to the per-request resolve.Context.
+func VerifWithResolveContext(fn func(ctx *resolve.Context)) ExecutionOptions {
+	return func(execCtx *internalExecutionContext) {
+		fn(execCtx.resolveContext)
+	}
+}
+
+// VerifPlannerConfiguration exposes the planner configuration of an engine configuration.
+func (e *Configuration) VerifPlannerConfiguration() *plan.Configuration { return &e.plannerConfig }
+
+// VerifPlannerConfiguration exposes the planner configuration the engine plans with.
+func (e *ExecutionEngine) VerifPlannerConfiguration() *plan.Configuration {
+	return &e.config.plannerConfig
+}
+
+// VerifSetPostProcessorOptions replaces the post-processor options used for new plans.
+func (e *ExecutionEngine) VerifSetPostProcessorOptions(opts ...postprocess.ProcessorOption) {
+	e.postProcessorOptions = opts
+}
+
+// VerifCachedPlans returns the number of plans in the plan cache.
+func (e *ExecutionEngine) VerifCachedPlans() int { return e.executionPlanCache.Len() }
+
+// VerifResolver exposes the engine's resolver.
+func (e *ExecutionEngine) VerifResolver() *resolve.Resolver { return e.resolver }
